@@ -109,9 +109,13 @@ func VerifH_C20_InOrderExactlyOnce() {
 }
 
 // The stream ends promptly on user cancel, service stop or feed close - even
-// while a retrieval keeps failing - and never delivers a gap.
+// while a retrieval keeps failing - and never delivers a gap. "Promptly" is a
+// bounded-termination claim: a path on which the subscription goroutine is still
+// running after 200000 SSA instructions (the longest path on a conforming tree
+// takes a few thousand) is a violation (nolivelock), e.g. a loop spinning on the
+// closed feed.
 //
-//verif:opts nodeadlock noreplay preempt=1 preempt_thorough=2 threads=8 cover=cancel,stop,feedclosed
+//verif:opts nodeadlock nolivelock maxsteps=200000 noreplay preempt=1 preempt_thorough=2 threads=8 cover=cancel,stop,feedclosed
 func VerifH_C20_EndsPromptly() {
 	feed := make(chan *header.ExtendedHeader, 1)
 	_, ch, userCancel, svcCancel := verifSubscribe(feed)
